@@ -671,7 +671,8 @@ func main() {
 		sigs = append(sigs, s)
 	}
 	sort.Strings(sigs)
-	os.MkdirAll(filepath.Join(verifDir, "replays"), 0o755)
+	replayDir := envOr("VERIF_REPLAY_DIR", filepath.Join(verifDir, "replays"))
+	os.MkdirAll(replayDir, 0o755)
 	exit := 0
 	var unknownSigs, knownSigs []string
 	for _, sig := range sigs {
@@ -683,7 +684,7 @@ func main() {
 		}
 		unknownSigs = append(unknownSigs, sig)
 		name := strings.NewReplacer("/", "_", "‖", "-", " ", "_").Replace(sig)
-		path := filepath.Join(verifDir, "replays", name+".json")
+		path := filepath.Join(replayDir, name+".json")
 		rp := map[string]any{"property": property, "signature": sig, "job": violJob[sig], "violation": v}
 		b, _ := json.MarshalIndent(rp, "", " ")
 		os.WriteFile(path, b, 0o644)
@@ -756,8 +757,9 @@ func main() {
 		ev["coverage"].(map[string]any)["samples"] = []any{"no sample recorded"}
 	}
 	b, _ := json.MarshalIndent(ev, "", " ")
-	os.MkdirAll(filepath.Join(verifDir, "evidence"), 0o755)
-	if err := os.WriteFile(filepath.Join(verifDir, "evidence", property+".json"), b, 0o644); err != nil {
+	evDir := envOr("VERIF_EVIDENCE_DIR", filepath.Join(verifDir, "evidence"))
+	os.MkdirAll(evDir, 0o755)
+	if err := os.WriteFile(filepath.Join(evDir, property+".json"), b, 0o644); err != nil {
 		fatalInfra("writing evidence: %v", err)
 	}
 	fmt.Printf("%s %s: executions=%d steps=%d tree_nodes=%d states=%d distinct_obs=%d exhaustive=%v stuck=%d known=%d violations=%d wall=%.1fs\n",
